@@ -42,7 +42,7 @@ from . import _n_word_max
 #%% 
 def array_support(func):
     def iterator(*args, **kwargs):
-        if isinstance(args[0], (list, np.ndarray)) and np.asarray(args[0]).ndim > 0:
+        if isinstance(args[0], (list, tuple, np.ndarray)) and np.asarray(args[0]).ndim > 0:
             vals = []
             for v in args[0]:
                 vals.append(iterator(v, *args[1:], **kwargs))
